@@ -422,6 +422,9 @@ func (symbol *compositeEntitySetSymbol) GetType() ast.NodeType {
 }
 
 func (symbol *compositeEntitySetSymbol) Eval(tx *bbolt.Tx, _ []byte) (FieldType, []byte) {
+	if symbol.cursor == nil {
+		return TypeNil, nil
+	}
 	return symbol.cursorLastF(tx, symbol.cursor.key)
 }
 
